@@ -370,6 +370,86 @@ Example C18_rejects_examples : forall fmt fnmatch,
   ld [C "a" (IDict [A; (KAttr AGetargs, VDict [(VStr "k", VTuple [VStr "nope"; VStr "v"])])])] = Invalid InvalidTask.
 Proof. intros. vm_compute. repeat split. Qed.
 
+(* ================================================================== the value a creator gives, before any isinstance test *)
+
+(* [pyres] / [classify] (Model/Loader.v): the Python value a task-creator returns or a generator yields, and the
+   chain of tests generate_tasks applies to it (Task? dict? generator? None? -> anything else is an error).
+   generate_tasks_py is what loader.load_tasks calls at load time AND what TaskDispatcher._add_task calls at
+   run time for a create_after creator (control.py 495).
+
+   Every result that is not None, not a dict, not a generator and not a Task is rejected, whatever its truth
+   value: [] () '' 0 0.0 False exactly like 42 or object().  For every state of the code, every creator name. *)
+Theorem C18_rejects_result_values : forall fmt level func v,
+  v <> VNone -> is_dict v = false ->
+  generate_tasks_py fmt level func (PVal v) = Invalid InvalidTask.
+Proof. exact generate_tasks_py_value_rejected. Qed.
+Print Assumptions C18_rejects_result_values.
+
+(* Every returned dict without `actions` -- the empty dict {} included -- and every returned dict with `name` is
+   rejected (keys are arbitrary values: only the str 'actions' counts) *)
+Theorem C18_rejects_result_dicts : forall fmt level func kv,
+  has_key kv "actions" = false \/ has_key kv "name" = true ->
+  generate_tasks_py fmt level func (PVal (VDict kv)) = Invalid InvalidTask.
+Proof. exact generate_tasks_py_dict_rejected. Qed.
+Print Assumptions C18_rejects_result_dicts.
+
+(* Conversely, whatever generate_tasks accepts is None (no task), a dict with `actions` and without `name`, a Task
+   with a str name, or a generator all of whose yielded values -- at any nesting depth -- are Tasks or dicts with
+   `actions` (unless `name: None`, the group definition) and with `name` or a non-empty str `basename`; a yielded
+   None / [] / 0 / '' / any other non-dict is never accepted ([returned_ok], [yielded_ok] in LoaderP.v) *)
+Theorem C18_rejects_results : forall fmt func r ts,
+  generate_tasks_py fmt L2 func r = Ok ts -> returned_ok r.
+Proof. exact generate_tasks_py_accepted. Qed.
+Print Assumptions C18_rejects_results.
+
+(* read the other way, for what a generator yields: ONE yielded value, at any nesting depth and whatever is yielded
+   before or after it, that is not a dict, a Task or a generator (None, [], (), '', 0, False, 42 ...), or a dict without
+   `actions` (unless `name: None`), or a dict with neither `name` nor a non-empty str `basename`: not accepted *)
+Theorem C18_rejects_yielded_values : forall fmt func l v ts,
+  In (PVal v) (flat_map pflat l) -> is_dict v = false -> generate_tasks_py fmt L2 func (PGen l) <> Ok ts.
+Proof. exact generate_tasks_py_yield_rejected. Qed.
+Print Assumptions C18_rejects_yielded_values.
+
+Theorem C18_rejects_yielded_dicts : forall fmt func l kv ts,
+  In (PVal (VDict kv)) (flat_map pflat l) ->
+  (has_key kv "actions" = false /\ vget kv "name" <> Some VNone) \/
+  (has_key kv "name" = false /\ forall s, vget kv "basename" = Some (VStr s) -> s = EmptyString) ->
+  generate_tasks_py fmt L2 func (PGen l) <> Ok ts.
+Proof. exact generate_tasks_py_yield_dict_rejected. Qed.
+Print Assumptions C18_rejects_yielded_dicts.
+
+(* the same for a namespace: if loading succeeds, every creator that is called at load time gave such a value *)
+Theorem C18_rejects_results_load : forall fmt fnmatch cmds allow cs ts c,
+  load_py fmt fnmatch L2 cmds allow cs = Ok ts -> In c cs -> runs allow (creator_of c) = true ->
+  returned_ok (pc_result c).
+Proof. intros fmt fnmatch cmds allow cs ts c H. exact (load_py_accepted fmt fnmatch cmds allow cs ts H c). Qed.
+Print Assumptions C18_rejects_results_load.
+
+(* and no value makes loading end in an internal traceback *)
+Theorem C18_total_results : forall fmt fnmatch cmds allow cs c,
+  load_py fmt fnmatch L2 cmds allow cs <> Crash c.
+Proof. exact load_py_total. Qed.
+Print Assumptions C18_total_results.
+
+(* the falsy values one by one, next to a valid creator: rejected; None: no task; an empty generator: the group
+   task; the same values yielded: rejected (None too); a valid dict: accepted -- the hypotheses of the theorems
+   above are satisfiable and their conclusions are not vacuous *)
+Example C18_rejects_result_examples : forall fmt fnmatch,
+  let A := (VStr "actions", VNone) in
+  let good := {| pc_name := "good"; pc_result := PVal (VDict [A]); pc_delayed := None |} in
+  let ld r := load_py fmt fnmatch L2 ["list"; "run"] false [good; {| pc_name := "bad"; pc_result := r; pc_delayed := None |}] in
+  Forall (fun v => ld (PVal v) = Invalid InvalidTask /\ ld (PGen [PVal (VDict [A; (VStr "name", VStr "x")]); PGen [PVal v]]) = Invalid InvalidTask)
+         [VDict []; VList []; VTuple []; VStr ""; VInt 0; VFloat 0; VFalse;
+          VDict [(VStr "doc", VStr "d")]; VList [VDict [A]]; VStr "text"; VInt 42; VTrue; VFun 1; VOther 1] /\
+  ld (PGen [PVal VNone]) = Invalid InvalidTask /\
+  (exists ts, ld (PVal VNone) = Ok ts /\ map t_name ts = ["good"]) /\
+  (exists ts, ld (PGen [PGen []]) = Ok ts /\ map t_name ts = ["good"; "bad"]) /\
+  (exists ts, ld (PVal (VDict [A; (VStr "basename", VStr "b")])) = Ok ts /\ map t_name ts = ["good"; "b"]).
+Proof.
+  intros. split; [repeat constructor|]. split; [reflexivity|].
+  split; [|split]; eexists; (split; [vm_compute; reflexivity | reflexivity]).
+Qed.
+
 (* ---- bad input that WAS accepted before the repairs (L1) ---- *)
 
 (* getargs: [] (any falsy value of a wrong type) passed `getargs = getargs or {}` *)
